@@ -336,6 +336,9 @@ impl<'a> Driver<'a> {
 
     fn do_op(&mut self, mut o: Value) -> Value {
         tick();
+        if self.rng.gen_bool(0.25) {
+            o["n"] = json!(1); // reach the bucket through the buckets() iterators
+        }
         let t = o["t"].as_i64().unwrap();
         let res = self.world.op(t, &o);
         // bias bookkeeping from observed results (not an oracle)
@@ -592,7 +595,10 @@ impl<'a> Driver<'a> {
                     }
                 }
                 Some(t) => {
-                    if r < 62 {
+                    if r < 3 && self.presized && self.readers.len() < self.max_readers {
+                        // a reader that begins while the writer is in flight
+                        self.begin(false);
+                    } else if r < 62 {
                         self.mutate(t);
                     } else if r < 80 {
                         self.read_op(t);
